@@ -11,7 +11,12 @@ op:
             }…]}
   FILE = {"stmts":[[f…]…],"defs":[n…],"refs":[n…],"syn":bool,"objf":bool,"modf":bool}
   → {"steps":[{"res":tag,"reads":[f…],"ret":i,"all":[[f,i]…],"next":n,
-               "locs":[[i,file,[[f,j]…]]…],"tgt":[[i,[["e",j,n]|["b",k,n]…]]…]}…]}
+               "locs":[[i,file,[[f,j]…]]…],"tgt":[[i,[["e",j,n]|["b",k,n]…]]…],
+               "unres":[[f,n]…]}…]}
+  "unres" = `Repo.unresolved`: the references of the texts parsed in this step that have no visible
+  definition (`Repo.visible`, the subject of C18_semantic_cause / C18_repair_succeeds) for a load starting
+  from the dict before the step.
+  Every step is `Repo.Op.run` (the step function of the histories of C17_history_wf) with fuel #files + 1.
   file = `Repo.loadMain` (model_from_file; model_from_str with file_name: the read of the main file
   is the parse of the string), str = `Repo.loadStr` (file numbers ≥ #files are the invented names
   anonymous0, anonymous1, …; "ret" meaningless unless ok), preload = `Repo.preload` on the dict of
@@ -57,9 +62,12 @@ def tgtJson : Target → Json
   | .elem i n => Json.arr #["e", toJson i, toJson n]
   | .builtin k n => Json.arr #["b", toJson k, toJson n]
 
-def stepJson (before : St) (st : St) (r : Res) (ret : Inst) : Json :=
+def stepJson (S : Spec) (before : St) (st : St) (r : Res) (ret : Inst) : Json :=
   let insts := List.range st.next
+  let newReads := (st.reads.take (st.reads.length - before.reads.length)).reverse
+  let b : St := if S.glob then before else { before with all := [] }
   Json.mkObj [
+    ("unres", toJson ((unresolved S b newReads).map fun e => [e.1, e.2])),
     ("res", resTag r),
     ("reads", toJson ((st.reads.take (st.reads.length - before.reads.length)).reverse)),
     ("ret", toJson ret),
@@ -101,21 +109,14 @@ def parseStep (j : Json) : Option (StepKind × Array FileSpec) := do
 def runSteps (glob perRef : Bool) (builtins : List (List Repo.Name)) :
     St → List (StepKind × Array FileSpec) → List Json → List Json
   | _, [], acc => acc.reverse
-  | st, (.file main, fs) :: rest, acc =>
-    let S := mkSpec glob perRef builtins fs
-    let (st', r, ret) := loadMain S (fs.size + 1) st main
-    runSteps glob perRef builtins st' rest (stepJson st st' r ret :: acc)
-  | st, (.str text, fs) :: rest, acc =>
-    let S := mkSpec glob perRef builtins fs text
-    let a := anonKey fs.size (if glob then st.all else [])
-    let (st', r, ret) := loadStr S (fs.size + 1) st a
-    runSteps glob perRef builtins st' rest (stepJson st st' r ret :: acc)
-  | st, (.preload calls, fs) :: rest, acc =>
-    -- the dict of the repository handed to `load_models_in_model_repo`
-    let S := mkSpec true perRef builtins fs
-    let st0 := if glob then st else { st with all := [] }
-    let (st', r) := preload S (fs.size + 1) st0 (mkCalls 1 calls)
-    runSteps glob perRef builtins st' rest (stepJson st st' r 0 :: acc)
+  | st, (kind, fs) :: rest, acc =>
+    -- the files as they are at this load; a model given as a string is every number beyond the files
+    let (S, op) : Spec × Op := match kind with
+      | .file main => (mkSpec glob perRef builtins fs, Op.file main)
+      | .str text => (mkSpec glob perRef builtins fs text, Op.str fs.size)
+      | .preload calls => (mkSpec glob perRef builtins fs, Op.preload (mkCalls 1 calls))
+    let (st', r, ret) := op.run S (fs.size + 1) st
+    runSteps glob perRef builtins st' rest (stepJson S st st' r ret :: acc)
 
 def handle (j : Json) : Json :=
   match getStr? j "op" with
